@@ -318,13 +318,27 @@ var encoders = []encoder{
 		return jsonOut(buf.String())
 	}},
 	// io.Writer entry points with tiny write limits: flushing in the middle of a struct must not change the document
-	{"oj.Write/wl1", true, func(x, px any, o *ojg.Options) (string, *tree, error) { return writeTo(o, 1, func(w io.Writer, o2 *ojg.Options) error { return oj.Write(w, x, o2) }, false) }},
-	{"oj.Write/wl40", true, func(x, px any, o *ojg.Options) (string, *tree, error) { return writeTo(o, 40, func(w io.Writer, o2 *ojg.Options) error { return oj.Write(w, px, o2) }, false) }},
-	{"sen.Write", false, func(x, px any, o *ojg.Options) (string, *tree, error) { return writeTo(o, 0, func(w io.Writer, o2 *ojg.Options) error { return sen.Write(w, x, o2) }, true) }},
-	{"sen.Write/wl7", false, func(x, px any, o *ojg.Options) (string, *tree, error) { return writeTo(o, 7, func(w io.Writer, o2 *ojg.Options) error { return sen.Write(w, px, o2) }, true) }},
-	{"pretty.WriteJSON", true, func(x, px any, o *ojg.Options) (string, *tree, error) { return writeTo(o, 0, func(w io.Writer, o2 *ojg.Options) error { return pretty.WriteJSON(w, x, o2) }, false) }},
-	{"pretty.WriteJSON/wl7", true, func(x, px any, o *ojg.Options) (string, *tree, error) { return writeTo(o, 7, func(w io.Writer, o2 *ojg.Options) error { return pretty.WriteJSON(w, x, o2) }, false) }},
-	{"pretty.WriteSEN/wl7", false, func(x, px any, o *ojg.Options) (string, *tree, error) { return writeTo(o, 7, func(w io.Writer, o2 *ojg.Options) error { return pretty.WriteSEN(w, x, o2) }, true) }},
+	{"oj.Write/wl1", true, func(x, px any, o *ojg.Options) (string, *tree, error) {
+		return writeTo(o, 1, func(w io.Writer, o2 *ojg.Options) error { return oj.Write(w, x, o2) }, false)
+	}},
+	{"oj.Write/wl40", true, func(x, px any, o *ojg.Options) (string, *tree, error) {
+		return writeTo(o, 40, func(w io.Writer, o2 *ojg.Options) error { return oj.Write(w, px, o2) }, false)
+	}},
+	{"sen.Write", false, func(x, px any, o *ojg.Options) (string, *tree, error) {
+		return writeTo(o, 0, func(w io.Writer, o2 *ojg.Options) error { return sen.Write(w, x, o2) }, true)
+	}},
+	{"sen.Write/wl7", false, func(x, px any, o *ojg.Options) (string, *tree, error) {
+		return writeTo(o, 7, func(w io.Writer, o2 *ojg.Options) error { return sen.Write(w, px, o2) }, true)
+	}},
+	{"pretty.WriteJSON", true, func(x, px any, o *ojg.Options) (string, *tree, error) {
+		return writeTo(o, 0, func(w io.Writer, o2 *ojg.Options) error { return pretty.WriteJSON(w, x, o2) }, false)
+	}},
+	{"pretty.WriteJSON/wl7", true, func(x, px any, o *ojg.Options) (string, *tree, error) {
+		return writeTo(o, 7, func(w io.Writer, o2 *ojg.Options) error { return pretty.WriteJSON(w, x, o2) }, false)
+	}},
+	{"pretty.WriteSEN/wl7", false, func(x, px any, o *ojg.Options) (string, *tree, error) {
+		return writeTo(o, 7, func(w io.Writer, o2 *ojg.Options) error { return pretty.WriteSEN(w, x, o2) }, true)
+	}},
 	{"sen.String", false, func(x, px any, o *ojg.Options) (string, *tree, error) { return senOut(sen.String(x, o)) }},
 	{"sen.String/ptr", false, func(x, px any, o *ojg.Options) (string, *tree, error) { return senOut(sen.String(px, o)) }},
 	{"pretty.JSON", true, func(x, px any, o *ojg.Options) (string, *tree, error) { return jsonOut(pretty.JSON(x, o)) }},
